@@ -10,57 +10,65 @@ import RxModel.Model.Compile
 import RxModel.Spec.OpLang
 import RxModel.Props.C02
 import RxModel.Props.C05
+import RxModel.Proofs.WFLemmas
 namespace Rx.WF
 open Rx
 
-mutual
-/-- no recorded body length of a fixed-length repeat is saturated -/
-def noSat : Op → Bool
-  | .capture _ c => noSat c
-  | .choice bs => noSatL bs
-  | .seq ops => noSatL ops
-  | .rep _ c _ _ _ => noSat c
-  | .gfixed c _ _ len => noSat c && decide (len < usizeMax)
-  | .rfixed c _ _ len => noSat c && decide (len < usizeMax)
-  | .unamb c _ _ => noSat c
-  | _ => true
-termination_by structural o => o
-def noSatL : List Op → Bool
-  | [] => true
-  | o :: os => noSat o && noSatL os
-termination_by structural l => l
-end
+/- `noSat` / `noSatL` ("no recorded body length of a fixed-length repeat is saturated") are defined,
+   unchanged, in Proofs/WFLemmas (the helper lemmas need them). -/
 
 /-- what the parser builds is well-formed, numbers its groups from 1 upward, and raises the
     back-reference flag whenever it emits a back-reference -/
 theorem parse_wf (c : PC) (fuel : Nat) (s : PS) (top : Bool) (op : Op) (s' : PS)
     (h : parseExpr c fuel s top = .ok op s') (hs : 1 ≤ s.parens) (hns : noSat op = true) :
     wfOp op = true ∧ C02.capsPos op = true ∧ (hasBackref op = true → s'.hasBackrefs = true) := by
-  sorry
+  have g := (parse_G c fuel).1 s top hs op s' h
+  exact ⟨g.1 hns, g.2.1, g.2.2⟩
 
 /-- `optimize` keeps trees well-formed … -/
-theorem optimize_wf (env : Env) (fl : CFlags) (op : Op) (h : wfOp op = true) : wfOp (optimize env fl op) = true := by
-  sorry
+theorem optimize_wf (env : Env) (fl : CFlags) (op : Op) (h : wfOp op = true) : wfOp (optimize env fl op) = true :=
+  (wm_optimize env fl op h).1
 
-/-- … keeps a fixed match length … -/
-theorem optimize_matchLen (env : Env) (fl : CFlags) (op : Op) (h : wfOp op = true) (l : Nat)
-    (hl : matchLen op = some l) : matchLen (optimize env fl op) = some l := by
-  sorry
+/-- ORIGINAL STATEMENT, FALSE AS STATED (kept visible; refuted by `optimize_matchLen_false`):
+    `optimize` keeps a fixed match length.  It fails at saturation: `matchLen (.seq [o])` is
+    `satAdd (matchLen o) 0`, which is `usizeMax` for an atom of more than `usizeMax` characters,
+    and `optimize` rewrites `.seq [o]` to `o`, whose `matchLen` is the unsaturated length.
+    True for every length below `usizeMax`: `optimize_matchLen_partial`. -/
+def optimize_matchLen : Prop :=
+  ∀ (env : Env) (fl : CFlags) (op : Op), wfOp op = true → ∀ (l : Nat),
+    matchLen op = some l → matchLen (optimize env fl op) = some l
+
+/-- the original `optimize_matchLen` is false -/
+theorem optimize_matchLen_false : ¬ optimize_matchLen := by
+  intro h
+  let env : Env :=
+    { lower := id, closure := fun _ => [], category := fun _ => none, block := fun _ => none,
+      digit := [], word := [], nameStart := [], nameChar := [] }
+  obtain ⟨h1, h2, h3⟩ := optimize_matchLen_cex env {}
+  have h4 := h env {} _ h1 _ h2
+  rw [h3] at h4
+  simp only [Option.some.injEq] at h4
+  omega
+
+/-- … keeps a fixed match length that is not saturated … -/
+theorem optimize_matchLen_partial (env : Env) (fl : CFlags) (op : Op) (h : wfOp op = true) (l : Nat)
+    (hlt : l < usizeMax) (hl : matchLen op = some l) : matchLen (optimize env fl op) = some l :=
+  (wm_optimize env fl op h).2 l hlt hl
 
 /-- … keeps group numbers positive and introduces no back-reference -/
 theorem optimize_caps (env : Env) (fl : CFlags) (op : Op) (h : C02.capsPos op = true) :
-    C02.capsPos (optimize env fl op) = true := by
-  sorry
+    C02.capsPos (optimize env fl op) = true :=
+  capsPos_optimize env fl op h
 
 theorem optimize_backref (env : Env) (fl : CFlags) (op : Op) (h : hasBackref (optimize env fl op) = true) :
-    hasBackref op = true := by
-  sorry
+    hasBackref op = true :=
+  hasBackref_optimize env fl op h
 
 /-- numbering the repeat nodes changes none of the predicates -/
 theorem numberReps_wf (op : Op) (n : Nat) :
     wfOp (numberReps op n).1 = wfOp op ∧ C02.capsPos (numberReps op n).1 = C02.capsPos op ∧
-    hasBackref (numberReps op n).1 = hasBackref op := by
-  sorry
+    hasBackref (numberReps op n).1 = hasBackref op :=
+  ⟨wfOp_numberReps op n, capsPos_numberReps op n, hasBackref_numberReps op n⟩
 
 /-- every optimised program the compiler produces satisfies the hypotheses of the engine theorems -/
 theorem compile_wf (env : Env) (fl : CFlags) (pat : List Nat) (pr : Prog)
@@ -69,6 +77,39 @@ theorem compile_wf (env : Env) (fl : CFlags) (pat : List Nat) (pr : Prog)
               noSat (optimize env fl op) = true ∧ noSat op = true) :
     wfOp pr.op = true ∧ C02.capsPos pr.op = true ∧ (hasBackref pr.op = true → pr.hasBackrefs = true) ∧
     (hasBackref pr.op = false → C05.FactsOK pr) := by
-  sorry
+  unfold compileCore at h
+  by_cases hl : fl.literal = true
+  · rw [if_pos hl] at h
+    simp only [if_true, Out.ok.injEq] at h
+    subst h
+    obtain ⟨e1, e2⟩ := mkProgram_op pat (makeSequence (.atom pat) .endProgram) 1 fl false
+    obtain ⟨n1, n2, n3⟩ := numberReps_wf (makeSequence (.atom pat) .endProgram) 0
+    rw [e1, e2, n1, n2, n3]
+    have hb : hasBackref (makeSequence (.atom pat) .endProgram) = false := by
+      simp [makeSequence, hasBackref, hasBackrefL]
+    refine ⟨by simp [makeSequence, wfOp, wfOps], by simp [makeSequence, C02.capsPos, C02.capsPosL],
+      ?_, fun _ => C05.mkProgram_factsOK _ _ _ _ hb⟩
+    intro hh
+    rw [hb] at hh
+    cases hh
+  · rw [if_neg hl] at h
+    dsimp only at h
+    cases hp : parseExpr { pat := pat, fl := fl, env := env } (4 * pat.length + 16) {} true with
+    | err e => rw [hp] at h; cases h
+    | ok op s =>
+      rw [hp] at h
+      dsimp only at h
+      split at h
+      · cases h
+      · simp only [if_true, Out.ok.injEq] at h
+        subst h
+        obtain ⟨_, hns2⟩ := hns op s hp
+        obtain ⟨w1, w2, w3⟩ := parse_wf _ _ _ _ _ _ hp (Nat.le_refl 1) hns2
+        obtain ⟨e1, e2⟩ := mkProgram_op pat (optimize env fl op) s.parens fl s.hasBackrefs
+        obtain ⟨n1, n2, n3⟩ := numberReps_wf (optimize env fl op) 0
+        rw [e1, e2, n1, n2, n3]
+        exact ⟨optimize_wf env fl op w1, optimize_caps env fl op w2,
+          fun hb => w3 (optimize_backref env fl op hb),
+          fun hb => mkProgram_factsOK_any _ _ _ _ _ hb⟩
 
 end Rx.WF
